@@ -51,6 +51,9 @@ M = [
     ("c08_pstart", "C08", "ladim/warm_start.py", 'pstart = f.variables["particle_count"][:-1].sum()', 'pstart = f.variables["particle_count"][:-2].sum()'),
     ("c08_release_start_rows", "C08", "ladim/release.py", "self._df = self._df[self._df.index > self.start_time]", "self._df = self._df[self._df.index >= self.start_time]"),
     ("c08_npid_from_count", "C08", "ladim/warm_start.py", "state.npid = pid_max", "state.npid = int(pcount)"),
+    # the repairs of section 8, items 18 and 19, taken out again: the checks must report the defects' return
+    ("c08_warm_flags_not_boolean", "C08", "ladim/warm_start.py", "            values = np.asarray(values).astype(bool)\n", "            values = np.asarray(values)\n"),
+    ("c14_bilin_inv_stops_all_together", "C14", "ladim/sample.py", "        todo = H >= tol\n        if not np.any(todo):\n            break\n", "        todo = H >= -1.0\n        if np.all(H < tol):\n            break\n"),
     ("c09_land_cancel_removed", "C09", "ladim/tracker.py", "        X1[onland] = X[onland]\n        Y1[onland] = Y[onland]", "        X1[onland] = X1[onland]\n        Y1[onland] = Y[onland]"),
     ("c09_ingrid_margin", "C09", "ladim/ROMS.py", "            (self.xmin + 0.5 < X)\n            & (X < self.xmax - 0.5)", "            (self.xmin + 0.5 < X)\n            & (X < self.xmax + 0.4)"),
     ("c09_inactive_restore_removed", "C09", "ladim/tracker.py", "        X1[inactive] = X[inactive]\n", "        X1[inactive] = X1[inactive]\n"),
